@@ -1,3 +1,3 @@
 (* Codec/Proofs.v — C12: collects the proof files of the Codec group *)
 From ZV Require Export Common.BytesFacts Codec.Spec Codec.RangeOps Codec.HIndex Codec.ProofsNum Codec.ProofsBytes Codec.ProofsTuple Codec.ProofsRange
-  Codec.ProofsKeys Codec.ProofsKeyRanges Codec.ProofsDecode Codec.ProofsRangeOps Codec.ProofsHIndex.
+  Codec.ProofsKeys Codec.ProofsKeyRanges Codec.ProofsDecode Codec.ProofsRangeOps Codec.ProofsHIndex Codec.ProofsDesc.
